@@ -237,8 +237,8 @@ func runKeySet(rep *vevid.Report, d caseDesc, dry bool) int {
 		rep.Count("tries_checked", 1)
 	}
 
-	if d.Name == "fan" {
-		return sec // the fan family targets the trie's rank/select vectors only
+	if d.Name == "fan" || strings.HasPrefix(d.Name, "grid") {
+		return sec // the fan / grid families target the trie's rank/select vectors only
 	}
 	// ---- index/model TrieBucket: one dictionary written with several block sizes ----
 	bprobes := probes
@@ -429,6 +429,19 @@ func mainEnum(f *vevid.Flags, rep *vevid.Report) {
 	rep.Bounds["fan_family"] = fmt.Sprintf("fan(L), L=1..%d", maxFan)
 	for l := 1; l <= maxFan; l++ {
 		large = append(large, caseDesc{Kind: "large", Name: "fan", N: l})
+	}
+	// bit-vector sizes around 512 and 1024 (label counts: grid31 / grid29; node counts: grid3), every size in the window
+	rep.Bounds["grid_families"] = "grid31(n), grid29(n): n=440..560, 960..1060; grid3(n): n=940..1060"
+	for _, name := range []string{"grid31", "grid29"} {
+		for n := 440; n <= 1060; n++ {
+			if n > 560 && n < 960 {
+				continue
+			}
+			large = append(large, caseDesc{Kind: "large", Name: name, N: n})
+		}
+	}
+	for n := 940; n <= 1060; n++ {
+		large = append(large, caseDesc{Kind: "large", Name: "grid3", N: n})
 	}
 	var idx int64
 	// large sets first (longest jobs first), each one its own work item
